@@ -519,6 +519,54 @@ func (e *lfExec) doLive(kind, name, hash string) string {
 	return strconv.FormatBool(ans)
 }
 
+// doRestart: a record is written, the process restarts (a new logger on the same directory, as main creates at
+// start-up), a second record is written the same day: both must be found, the day file holds two whole lines.
+func (e *lfExec) doRestart(kind, n1, h1, n2, h2 string) string {
+	dir := filepath.Join(lfRoot, "x-"+kind)
+	_ = os.RemoveAll(dir)
+	defer os.RemoveAll(dir)
+	now := time.Now()
+	a := stslog.NewFileIO(dir, nil, nil, false)
+	write := func(l *stslog.FileIO, n, h string) {
+		if kind == "recv" {
+			l.Received(&lfFile{name: n, hash: h, size: 1})
+		} else {
+			l.Sent(&lfFile{name: n, hash: h, size: 1, ms: 1})
+		}
+	}
+	find := func(l *stslog.FileIO, n, h string) bool {
+		if kind == "recv" {
+			return l.WasReceived(n, h, now.Add(-time.Hour), now.Add(time.Hour))
+		}
+		return l.WasSent(n, h, now.Add(-time.Hour), now.Add(time.Hour))
+	}
+	write(a, n1, h1)
+	b := stslog.NewFileIO(dir, nil, nil, false)
+	write(b, n2, h2)
+	f1, f2 := find(b, n1, h1), find(b, n2, h2)
+	lines := 0
+	filepath.Walk(dir, func(p string, info os.FileInfo, err error) error {
+		if err == nil && !info.IsDir() {
+			if d, err := os.ReadFile(p); err == nil {
+				lines += strings.Count(string(d), "\n")
+			}
+		}
+		return nil
+	})
+	if lfClean(n1, h1, n2, h2) {
+		if !f1 {
+			e.fail("lookup-incomplete: %s record %q/%q written before a restart of the logger is not found after the next record was written", kind, n1, h1)
+		}
+		if !f2 {
+			e.fail("lookup-incomplete: %s record %q/%q written after a restart of the logger is not found", kind, n2, h2)
+		}
+		if lines != 2 {
+			e.fail("lookup-incomplete: two %s records written around a restart of the logger left %d lines in the day file", kind, lines)
+		}
+	}
+	return fmt.Sprintf("%v %v %d", f1, f2, lines)
+}
+
 func (e *lfExec) Do(op []string) string {
 	e.key.WriteString(strings.Join(op, " "))
 	e.key.WriteByte(';')
@@ -586,6 +634,11 @@ func (e *lfExec) Do(op []string) string {
 			return "bad-op"
 		}
 		return e.doConcurrent(op[1], int(k), int(m), day)
+	case len(op) == 6 && op[0] == "restart":
+		if !kindOK(op[1]) {
+			return "bad-op"
+		}
+		return e.doRestart(op[1], unesc(op[2]), unesc(op[3]), unesc(op[4]), unesc(op[5]))
 	case len(op) == 4 && op[0] == "live":
 		if !kindOK(op[1]) {
 			return "bad-op"
@@ -690,7 +743,8 @@ func (logfmtComp) Corpus() [][]string {
 			fmt.Sprintf("parse recv %d %d 0", t, t+5), "wasrecv a b " + w, "wasrecv a 12 " + w, "wasrecv n h " + w, "wasrecv x - " + w},
 		// concurrent writers
 		{fmt.Sprintf("concurrent recv 8 6 %d", d), fmt.Sprintf("concurrent sent 4 3 %d", d), "wasrecv cw/g3-f2.dat h3x2 " + w, "wasrecv cw/g3-f2.dat h3x1 " + w,
-			"wassent cw/g3-f2.dat h3x2 " + w, "wasrecv cw/g3-f2 - " + w, fmt.Sprintf("parse recv %d %d 0", t, t+5), "live recv a/b h", "live sent a/b h"},
+			"wassent cw/g3-f2.dat h3x2 " + w, "wasrecv cw/g3-f2 - " + w, fmt.Sprintf("parse recv %d %d 0", t, t+5), "live recv a/b h", "live sent a/b h",
+			"restart recv d/f1 aa11 d/f2 bb22", "restart sent d/f1 aa11 d/f1 bb22"},
 	}
 }
 
@@ -923,6 +977,13 @@ func (logfmtComp) Generate(r *Rand, tier string, n int) [][]string {
 				w[0] = "sent"
 			}
 			ops = append(ops, fmt.Sprintf("live %s %s %s", w[0], esc(w[1]), esc(w[2])))
+		}
+		if r.Chance(0.1) {
+			k := "recv"
+			if r.Chance(0.4) {
+				k = "sent"
+			}
+			ops = append(ops, fmt.Sprintf("restart %s %s %s %s %s", k, esc(names[r.Intn(len(names))]), esc(hs[r.Intn(len(hs))]), esc(names[r.Intn(len(names))]), esc(hs[r.Intn(len(hs))])))
 		}
 		cases = append(cases, ops)
 	}
